@@ -32,7 +32,7 @@ BASIS_OPS = {"basis_matrix"}
 ARBITRARY_OPS = {"base_point", "general_point"}
 
 
-LINEAR_OPS = {"join", "meet", "contains", "__eq__", "crossratio", "dist", "angle", "is_coplanar", "is_collinear", "is_concurrent", "is_parallel", "parallel",
+LINEAR_OPS = {"rotation", "translation", "reflection", "join", "meet", "contains", "__eq__", "crossratio", "dist", "angle", "is_coplanar", "is_collinear", "is_concurrent", "is_parallel", "parallel",
               "perpendicular", "project", "mirror", "harmonic_set", "is_perpendicular", "is_cocircular", "angle_bisectors", "isinf", "apply", "__mul__"}
 
 
@@ -240,7 +240,7 @@ def post_twin(ctx, call):
         if np.any(d > 1e-8):
             ctx.skip("twin", "components of a non-degenerate quadric (precondition not met)")
             return
-    metric = opname in {"dist", "angle", "angles", "length", "area", "volume", "radius", "inradius", "center", "centroid", "circumcenter", "midpoint", "perpendicular",
+    metric = opname in {"translation", "rotation", "dist", "angle", "angles", "length", "area", "volume", "radius", "inradius", "center", "centroid", "circumcenter", "midpoint", "perpendicular",
                         "mirror", "project", "is_perpendicular", "angle_bisectors", "is_cocircular", "foci", "parallel", "is_parallel", "normalized_array",
                         "intersection_angle", "__add__", "__sub__"}
     if metric and not _finite_points(operands):
@@ -380,8 +380,10 @@ def install(ctx):
                 continue
             if isinstance(raw, (property, types.FunctionType)):
                 core.wrap_method(c, name, post_twin)
+    import geometer.transformation as T
+
     for mod, names in ((O, ["crossratio", "harmonic_set", "angle", "angle_bisectors", "dist", "is_cocircular", "is_perpendicular", "is_coplanar"]),
-                       (P, ["join", "meet"])):
+                       (P, ["join", "meet"]), (T, ["rotation", "translation", "reflection"])):
         for name in names:
             core.wrap_function(mod, name, post_twin)
 
